@@ -202,8 +202,19 @@ func (st *verifC17State) drain() {
 	}
 }
 
-func verifC17BufferClosed(rd *Reader) bool {
-	return reflect.ValueOf(rd.buffer).Elem().FieldByName("closed").Bool()
+// has the reader's queue been closed?  Found reflectively (whatever the queue type is: any pointer field of
+// Reader to a struct with a bool field `closed`), so that the harness builds against a replaced queue.
+func verifC17BufferClosed(rd *Reader) (closed bool, known bool) {
+	v := reflect.ValueOf(rd).Elem()
+	for i := 0; i < v.NumField(); i++ {
+		f := v.Field(i)
+		if f.Kind() == reflect.Pointer && !f.IsNil() && f.Elem().Kind() == reflect.Struct {
+			if c := f.Elem().FieldByName("closed"); c.IsValid() && c.Kind() == reflect.Bool {
+				return c.Bool(), true
+			}
+		}
+	}
+	return false, false
 }
 
 func (st *verifC17State) remove(r *verifC17Reader) {
@@ -218,7 +229,15 @@ func (st *verifC17State) remove(r *verifC17Reader) {
 	if r.inflight {
 		// let RemoveReader get past buffer.Close(), then let the callback in flight return
 		dl := time.Now().Add(verifC17Timeout)
-		for !verifC17BufferClosed(r.rd) && time.Now().Before(dl) {
+		for time.Now().Before(dl) {
+			closed, known := verifC17BufferClosed(r.rd)
+			if closed {
+				break
+			}
+			if !known {
+				time.Sleep(5 * time.Millisecond) // unknown queue type: give RemoveReader time to close it
+				break
+			}
 			time.Sleep(50 * time.Microsecond)
 		}
 		// RemoveReader must not return while the callback is still running
@@ -305,6 +324,9 @@ type verifC17AA struct {
 	pubs []*SubStream // pubs[0] unused (offline filler)
 	mu   sync.Mutex
 	got  []int
+
+	markerID int
+	marker   chan int
 }
 
 var verifC17aa *verifC17AA
@@ -327,24 +349,27 @@ func (a *verifC17AA) newPub() *SubStream {
 	}
 }
 
-// everything pushed to the reader before this call has been handed to its callback when it returns
+// barrier through the public API only: a marker unit is written by the current publisher; when the reader
+// callback has seen it, every unit written before has been handed over (the reader queue is FIFO)
 func (a *verifC17AA) barrier() bool {
-	done := make(chan struct{})
-	dl := time.Now().Add(verifC17Timeout)
+	cur := a.pubs[len(a.pubs)-1]
+	if cur == nil {
+		return true
+	}
+	a.markerID++
+	id := a.markerID
+	m := cur.InDesc.Medias[0]
+	cur.WriteUnit(m, m.Formats[0], &unit.Unit{PTS: 0, Payload: unit.PayloadG711{0x02, byte(id >> 8), byte(id)}})
+	dl := time.After(verifC17Timeout)
 	for {
-		if a.rd.buffer.Push(func() error { close(done); return nil }) {
-			break
-		}
-		if time.Now().After(dl) {
+		select {
+		case got := <-a.marker:
+			if got == id&0xffff {
+				return true
+			}
+		case <-dl:
 			return false
 		}
-		time.Sleep(100 * time.Microsecond)
-	}
-	select {
-	case <-done:
-		return true
-	case <-time.After(verifC17Timeout):
-		return false
 	}
 }
 
@@ -376,7 +401,7 @@ func verifC17AAExec(f []string) string {
 	if f[0] == "reset" {
 		verifC17Close()
 		verifC17AAClose()
-		a := &verifC17AA{pubs: []*SubStream{nil}}
+		a := &verifC17AA{pubs: []*SubStream{nil}, marker: make(chan int, 64)}
 		a.strm = &Stream{
 			AlwaysAvailable:       true,
 			AlwaysAvailableTracks: []conf.AlwaysAvailableTrack{{Codec: conf.CodecG711, SampleRate: 8000, ChannelCount: 1, MULaw: true}},
@@ -391,6 +416,13 @@ func verifC17AAExec(f []string) string {
 		a.rd = &Reader{Parent: verifC17Log{}}
 		m := a.strm.OrigDesc.Medias[0]
 		a.rd.OnData(m, m.Formats[0], func(u *unit.Unit) error {
+			if p, ok := u.Payload.(unit.PayloadG711); ok && len(p) == 3 && p[0] == 0x02 {
+				select {
+				case a.marker <- int(p[1])<<8 | int(p[2]):
+				default:
+				}
+				return nil
+			}
 			if p, ok := u.Payload.(unit.PayloadG711); ok && len(p) == 3 && p[0] == 0x01 {
 				a.mu.Lock()
 				a.got = append(a.got, int(p[1])<<8|int(p[2]))
@@ -637,7 +669,44 @@ func verifC17GenAA(r *verifutil.Rand) []string {
 	return ops
 }
 
+// a slow reader's queue is filled EXACTLY: one unit in the (blocked) callback, then size, size+1 or size+2 more
+// writes, then the callback is released until everything is drained; a second reader keeps up
+func verifC17GenFill(r *verifutil.Rand) []string {
+	cap := []int{1, 2, 4, 8}[r.Intn(4)]
+	nf := 1 + r.Intn(2)
+	ops := []string{fmt.Sprintf("reset %d %d 0", cap, nf), fmt.Sprintf("add 0 %d", 1<<nf-1)}
+	if r.Bool() {
+		ops = append(ops, "add 1 1")
+	}
+	tag := 0
+	w := func() {
+		ops = append(ops, fmt.Sprintf("write %d %d", r.Intn(nf), tag))
+		tag++
+		if len(ops) > 3 && strings.HasPrefix(ops[2], "add 1") && r.Chance(2, 3) {
+			ops = append(ops, "done 1")
+		}
+	}
+	rounds := 1 + r.Intn(3)
+	for k := 0; k < rounds; k++ {
+		w() // enters reader 0's callback and stays there
+		for j := 0; j < cap+r.Intn(3); j++ {
+			w()
+		}
+		for j := 0; j < cap+3; j++ {
+			ops = append(ops, "done 0")
+			if r.Chance(1, 4) {
+				w() // refill while draining
+			}
+		}
+		ops = append(ops, "done 0", "done 0")
+	}
+	return append(ops, "final")
+}
+
 func verifC17Gen(r *verifutil.Rand, i int, thorough bool) []string {
+	if i%8 == 3 {
+		return verifC17GenFill(r)
+	}
 	// wall-clock paced (the first publisher waits for the filler's last sample, ≤ 100 ms)
 	if (!thorough && i%20 == 10) || (thorough && i%100 == 10) {
 		return verifC17GenAA(r)
